@@ -401,7 +401,11 @@ class C12(Check):
     anchors = ('BaseFileLock', 'UnixFileLock')
     budget = {'quick': 45.0, 'thorough': 760.0}
     assumptions = [
-        'operations are executed one at a time (no interleaving inside an operation - that is C02); virtual time',
+        'model families: operations are executed one at a time (no interleaving inside an operation); virtual time',
+        'concurrent family: C02\'s interleaved scenarios; judged there: residue after everybody released (holder flags, '
+        'descriptors, every object and a fresh one acquirable at once), nobody blocked for ever, time bounds of non-blocking '
+        '(at once) and timed acquires (2 x timeout + poll interval, not counting long preemptions injected into the caller), '
+        'no OSError out of a lock operation (no fault is injected in this family)',
         'sim Lock/RLock/time inside aiuti.filelock; real kernel flock on a fresh descriptor per acquisition',
         'release only by the acquiring thread (releasing another thread\'s lock is outside the contract)',
         'an injected close() failure really closes the descriptor first, as Linux does',
